@@ -64,6 +64,8 @@ func c16ExecPath(c *c16Case) (obs c16Obs) {
 				obs.Err = "abs"
 			case strings.Contains(s, "root path provided to SecureJoin"):
 				obs.Err = "root"
+			case strings.Contains(s, "invalid argument"):
+				obs.Err = "lstat"
 			default:
 				obs.Err = "other"
 			}
@@ -141,6 +143,8 @@ func c16CoqPath(c *c16Case, obs *c16Obs) string {
 			o = "(inl CJ2Abs)"
 		case "root":
 			o = "(inl CJ2Root)"
+		case "lstat":
+			o = "(inl CJ2Lstat)"
 		default:
 			return "CPanic"
 		}
